@@ -80,15 +80,33 @@ Definition olist {A} (o : option (list A)) : list A := match o with Some l => l 
 (* every add_* asserts node_id is not None *)
 Definition need_id (t : tree) : res str := match t_nid t with Some i => Ok i | None => Err ExAssertion end.
 
-(* add_interface_sliver: the interface's own interface_info (sub-interfaces) is NOT written *)
-Definition add_interface_sliver (g : graph) (parent : option str) (t : tree) : res graph :=
-  bind (need_id t) (fun id =>
-  bind (to_props KInterface (t_attrs t)) (fun p =>
-  bind (add_node g id (class_label KInterface) p) (fun g1 =>
-    match parent with
-    | Some pid => add_link g1 pid rel_connects id
-    | None => Ok g1
-    end))).
+(* add_interface_sliver: node, link to the parent, then - when the regenerated flag
+   add_interface_descends says the code does so (fix 1e6f502) - the child interfaces, recursively *)
+Fixpoint add_interface_sliver (g : graph) (parent : option str) (t : tree) : res graph :=
+  match t with
+  | T _ nid a _ _ i =>
+      match nid with
+      | None => Err ExAssertion
+      | Some id =>
+          bind (to_props KInterface a) (fun p =>
+          bind (add_node g id (class_label KInterface) p) (fun g1 =>
+          bind (match parent with
+                | Some pid => add_link g1 pid rel_connects id
+                | None => Ok g1
+                end) (fun g2 =>
+            if add_interface_descends then
+              match i with
+              | Some l =>
+                  (fix go (l : list tree) (g : graph) : res graph :=
+                     match l with
+                     | [] => Ok g
+                     | u :: r => bind (add_interface_sliver g (Some id) u) (go r)
+                     end) l g2
+              | None => Ok g2
+              end
+            else Ok g2)))
+      end
+  end.
 
 Definition t_ifs (t : tree) := match t with T _ _ _ _ _ i => i end.
 Definition t_nss (t : tree) := match t with T _ _ _ _ n _ => n end.
@@ -121,11 +139,13 @@ Definition add_network_node_sliver (g : graph) (t : tree) : res graph :=
   bind (foldM (fun g' c => add_component_sliver g' id c) (olist (t_comps t)) g1) (fun g2 =>
     foldM (fun g' s => add_network_service_sliver g' (Some id) s) (olist (t_nss t)) g2)))).
 
+(* every interface must be in the graph before the Link node is added (fix b5829c4) *)
 Definition add_network_link_sliver (g : graph) (t : tree) (interfaces : list str) : res graph :=
   bind (need_id t) (fun id =>
+  bind (mapM (get_node_properties g) interfaces) (fun _ =>
   bind (to_props KLink (t_attrs t)) (fun p =>
   bind (add_node g id (class_label KLink) p) (fun g1 =>
-    foldM (fun g' i => add_link g' id rel_connects i) interfaces g1))).
+    foldM (fun g' i => add_link g' id rel_connects i) interfaces g1)))).
 
 (* the route by sliver class (services written stand-alone have no parent) *)
 Definition add_sliver (g : graph) (t : tree) : res graph :=
@@ -216,17 +236,3 @@ Definition graph_roundtrip (t : tree) : res tree :=
     | None => Err ExAssertion
     end).
 
-(* what the graph route keeps of a sliver: everything but the sub-interfaces of its interfaces *)
-Definition drop_subifs_if (t : tree) : tree := match t with T k n a c s _ => T k n a c s None end.
-Definition drop_subifs_ns (t : tree) : tree :=
-  match t with T k n a c s i => T k n a c s (option_map (map drop_subifs_if) i) end.
-Definition drop_subifs_comp (t : tree) : tree :=
-  match t with T k n a c s i => T k n a c (option_map (map drop_subifs_ns) s) i end.
-Definition drop_subifs (t : tree) : tree :=
-  match t with
-  | T KNode n a c s i => T KNode n a (option_map (map drop_subifs_comp) c) (option_map (map drop_subifs_ns) s) i
-  | T KComponent n a c s i => drop_subifs_comp t
-  | T KService n a c s i => drop_subifs_ns t
-  | T KInterface n a c s i => drop_subifs_if t
-  | T KLink n a c s i => t
-  end.
